@@ -1778,8 +1778,13 @@ class Buffer:
             completions = complete_state.completions
 
             # When there is only one completion, which has nothing to add, ignore it.
-            if len(completions) == 1 and completion_does_nothing(
-                document, completions[0]
+            # (Unless the user already selected it while the completions were
+            # still loading: removing it would leave `complete_index` pointing
+            # into an empty list.)
+            if (
+                len(completions) == 1
+                and complete_state.complete_index is None
+                and completion_does_nothing(document, completions[0])
             ):
                 del completions[:]
 
